@@ -15,7 +15,8 @@ RULE = ("cases = (a) fin: the REAL Runner.run/_finish/Promise.join over a script
         "(b) wait: raw wait statuses obtained from the kernel (fork + _exit(n) for all n in 0..255, fork + kill(self, s) for every "
         "terminating signal) and synthesized ones (core flag, stopped, random 16-bit) fed to the real Local.returncode pty branch; "
         "(c) real: invoke.Context().run on real children `exit N` / `kill -SIG $$`, pty on/off, warn on/off, sync/async; "
-        "(d) prog: the real Program.run with bodies raising Exit / UnexpectedExit / running a failing real child / parse errors. "
+        "(d) prog: the real Program.run with bodies raising Exit / UnexpectedExit / running a failing real child / parse errors; "
+        "(e) histories of several runs on one Runner object; (f) one promise joined several times / left through `with` after joins. "
         "non-trivial = every case except status-zero-without-any-failure-cause; distinct = distinct case dicts")
 TRUSTED = ["Lean 4.33 kernel", "axioms propext/Classical.choice/Quot.sound only",
            "tools/extractors/runner.py (behavioural probing of Runner._finish, Program.run, Exit.code)",
@@ -216,9 +217,50 @@ def reuse_case(case):
     return None
 
 
+def joins_case(case):
+    """HISTORY: one asynchronous run whose promise is joined several times (explicit join()s, and/or leaving a
+    `with promise:` block, which joins again): EVERY join must take the same decision from the command's status -
+    return iff status 0 or warn, else UnexpectedExit carrying that status."""
+    from invoke import Context, Config
+    from invoke.exceptions import UnexpectedExit
+    from fakerunner import Scripted
+    rc, warn = case["rc"], case["warn"]
+    want = ("return", rc) if (rc == 0 or warn) else ("UnexpectedExit", rc)
+    r = Scripted(Context(Config()), out=[b"o"], exited=rc, finish_when="drained")
+    p = r.run("cmd", hide=True, in_stream=False, warn=warn, asynchronous=True)
+
+    def one(f):
+        try:
+            res = f()
+            return ("return", getattr(res, "exited", rc))
+        except UnexpectedExit as e:
+            return ("UnexpectedExit", e.result.exited)
+
+    for i in range(case["joins"]):
+        got = one(p.join)
+        if got != want:
+            return "join %d of one promise (status %d, warn=%s): got %s, the property demands %s" % (i + 1, rc, warn, got, want)
+    if case["with"]:
+        def leave():
+            with p:
+                pass
+            return p.runner  # no result object here: only return-vs-raise is observable
+        got = one(leave)
+        if got[0] != want[0] or (got[0] == "UnexpectedExit" and got != want):
+            return "leaving `with promise:` after %d join(s) (status %d, warn=%s): got %s, the property demands %s" % (
+                case["joins"], rc, warn, got[0], want[0])
+    return None
+
+
 def replay(case):
     import props._c05util as u
     k = case["kind"]
+    if k == "joins":
+        try:
+            why = common.with_timeout(joins_case, 60, case)
+        except common.Hang:
+            why = "[hang] the join did not return"
+        return why is None, why or "ok"
     if k == "reuse":
         try:
             why = common.with_timeout(reuse_case, 60, case)
@@ -391,6 +433,17 @@ def run(ctx):
         ok, why = replay(c)
         if not ok:
             out.fail(c, why)
+    # (f) histories: one promise joined several times / left through a `with` block after joins
+    for rc in ([0, 1, 3, -9] if not big else [0, 1, 2, 3, 127, 255, -9, -15]):
+        for warn in (False, True):
+            for joins in (1, 2, 3):
+                for w in (False, True):
+                    c = {"kind": "joins", "rc": rc, "warn": warn, "joins": joins, "with": w}
+                    out.case(c, True)
+                    out.hist["joins"] += 1
+                    ok, why = replay(c)
+                    if not ok:
+                        out.fail(c, why)
     out.exhaustive = True
     out.extra["table_obligations"] = 6  # finish_order, finish_probe_agrees/complete, exit_probe_agrees, exit_obj_probe_agrees, exitCodeMap_eq
     out.extra["terminating_signals_probed"] = sigs
